@@ -43,8 +43,9 @@ ASSUMPTIONS = [
     "(mask XORed into the KEK word selected by 2 bits of the align byte per context; wrapped blob reversed in groups of N bytes)",
     "per-family parameters (key-blob swap count, reversed scramble mask, whether IEE key blobs are generated) are read from the device database",
 ]
-FLOORS = {"base_unaligned": 0.08, "multi_region": 0.25, "edge_inside": 0.25, "byte_swap": 0.05, "cover:partial": 0.15,
-          "cover:full": 0.02, "cover:none": 0.02, "engine:otfad": 0.2, "engine:iee": 0.15, "engine:bee": 0.15, "via:config": 0.08}
+FLOORS = {"base_unaligned": 0.15, "multi_region": 0.30, "edge_inside": 0.15, "byte_swap": 0.03, "cover:partial": 0.10, "cover:full": 0.10,
+          "cover:none": 0.05, "engine:otfad": 0.2, "engine:iee": 0.15, "engine:bee": 0.15, "via:config": 0.08, "touching_regions": 0.10,
+          "len_nonaligned": 0.15, "scramble": 0.03}
 
 FIX = os.path.join(VERIF_DIR, "fixtures", "c13")
 
@@ -147,26 +148,30 @@ def _regions(extra: dict, max_gap: int, max_n: int):
     return st.lists(st.fixed_dictionaries({"gap": st.integers(0, max_gap), "n": st.integers(1, max_n), **extra}), min_size=1, max_size=4)
 
 
-def _geometry(gran_per_unit: int, max_units: int, maxlen: int):
+def _geometry(gran_per_unit: int, max_units: int, maxlen: int, unit: int = 1024):
     """common image placement fields: base in granules relative to the origin, length, optional snap to an edge, cut points."""
     g = gran_per_unit
-    anchor = st.fixed_dictionaries({"edge": st.integers(0, 7), "delta": st.one_of(st.integers(-3 * g, g), st.sampled_from([0, -g, -2 * g, -1, 1, -g // 2, -g - 1, -g + 1]))})
+    def anchor(lo: int):  # distinct strategy objects: one_of() merges identical branches
+        return st.fixed_dictionaries({"edge": st.integers(0, 7), "delta": st.one_of(st.integers(lo * g, g), st.sampled_from([0, -g, -2 * g, -1, 1, -g // 2, -g - 1, -g + 1]))})
+
     base = st.one_of(
         st.integers(0, max_units * g),
         st.integers(0, max_units).map(lambda u: u * g),
         st.tuples(st.integers(0, max_units), st.sampled_from([1, g // 2, g - 1])).map(lambda t: t[0] * g + t[1] % g),
-        anchor, anchor, anchor,
+        anchor(-1), anchor(-2), anchor(-3), anchor(-4),
     )
     length = st.one_of(st.integers(1, maxlen), st.integers(1, maxlen // 1024).map(lambda k: k * 1024), st.integers(1, maxlen // 16).map(lambda k: k * 16),
-                       st.integers(1, 64), st.integers(1024, min(maxlen, 8192)))
-    snap = st.one_of(st.none(), st.fixed_dictionaries({"edge": st.integers(0, 7), "extra": st.sampled_from([0, 0, 1, 15, 16, 17, -1, -16, 1024, -1024, 4096])}))
+                       st.integers(1, 64), st.integers(2 * unit, maxlen), st.integers(2 * unit + 1, maxlen), st.integers(unit + 1, 3 * unit),
+                       st.integers(unit, 4 * unit), st.integers(3 * unit, maxlen))
+    snap = st.one_of(st.none(), st.none(), st.none(),
+                     st.fixed_dictionaries({"edge": st.integers(0, 7), "extra": st.sampled_from([0, 1, 1, 15, 16, 17, 33, -1, -16, 1024, 1040, -1024, 4096, 4097])}))
     return {"base": base, "len": length, "snap": snap, "cuts": st.lists(st.integers(0, 1 << 16), max_size=3), "seed": st.binary(min_size=8, max_size=8)}
 
 
 # ========================================================================================== OTFAD
 def _otfad_case(maxlen: int):
     blob = {"key": st.binary(min_size=16, max_size=16), "ctr": st.binary(min_size=8, max_size=8),
-            "flags": st.sampled_from([3, 3, 3, 3, 7, 7, 1, 2, 0, 5, 6]), "end": st.sampled_from(["excl", "incl"])}
+            "flags": st.sampled_from([3, 3, 3, 3, 3, 7, 7, 7, 1, 2, 0, 5, 6]), "end": st.sampled_from(["excl", "incl"])}
     return st.fixed_dictionaries({
         "origin": st.sampled_from(_ORIGINS_1K), "blobs": _regions(blob, 3, 6), "swap": st.sampled_from([False, False, True]),
         "kek": st.binary(min_size=16, max_size=16),
@@ -406,7 +411,7 @@ def _iee_region(modes):
 
 
 def _iee_case(maxlen: int):
-    geo = _geometry(1, 14, maxlen)
+    geo = _geometry(1, 14, maxlen, 4096)
     common = {"origin": st.sampled_from([0x0, 0x04000000, 0x30000000, 0x7FFFE000, 0xFFF00000]), "ibkek1": st.binary(min_size=32, max_size=32),
               "ibkek2": st.binary(min_size=32, max_size=32), "kb_page": st.integers(0, 0xFFFF), **geo}
     return st.one_of(
@@ -524,7 +529,7 @@ _IEE_FAMILIES = ["mimxrt1166", "mimxrt1176", "mimxrt1189", "mimxrt1181", "mimxrt
 
 
 def _iee_cfg_case(maxlen: int):
-    data = st.fixed_dictionaries({"gap": st.integers(0, 2), "len": st.one_of(st.integers(1, maxlen), st.integers(1, max(1, maxlen // 4096)).map(lambda k: k * 4096)),
+    data = st.fixed_dictionaries({"gap": st.integers(0, 2), "len": st.one_of(st.integers(1, maxlen), st.integers(4097, maxlen), st.integers(1, max(1, maxlen // 4096)).map(lambda k: k * 4096)),
                                   "seed": st.binary(min_size=4, max_size=4)})
     return st.fixed_dictionaries({
         "family": st.sampled_from(_IEE_FAMILIES), "origin": st.sampled_from([0x30000000, 0x04000000, 0x28000000]),
@@ -773,9 +778,9 @@ def parts(ctx):
         return strategy(maxlen).map(lambda c: dict(c, maxlen=maxlen))
 
     return [
-        HypPart("otfad", sized(_otfad_case, big), run_otfad, {"quick": 900, "thorough": 40000}),
-        HypPart("otfad_cfg", sized(_otfad_cfg_case, 4096 if ctx.quick else 65536), lambda c, o: run_otfad_cfg(c, o, work), {"quick": 300, "thorough": 10000}),
-        HypPart("iee", sized(_iee_case, big), run_iee, {"quick": 700, "thorough": 30000}),
-        HypPart("iee_cfg", sized(_iee_cfg_case, 8192 if ctx.quick else 65536), lambda c, o: run_iee_cfg(c, o, work), {"quick": 250, "thorough": 8000}),
-        HypPart("bee", sized(_bee_case, big), lambda c, o: run_bee(c, o, work), {"quick": 800, "thorough": 40000}),
+        HypPart("otfad", sized(_otfad_case, big), run_otfad, {"quick": 3000, "thorough": 60000}),
+        HypPart("otfad_cfg", sized(_otfad_cfg_case, 4096 if ctx.quick else 65536), lambda c, o: run_otfad_cfg(c, o, work), {"quick": 800, "thorough": 16000}),
+        HypPart("iee", sized(_iee_case, big), run_iee, {"quick": 2500, "thorough": 50000}),
+        HypPart("iee_cfg", sized(_iee_cfg_case, 8192 if ctx.quick else 65536), lambda c, o: run_iee_cfg(c, o, work), {"quick": 700, "thorough": 14000}),
+        HypPart("bee", sized(_bee_case, big), lambda c, o: run_bee(c, o, work), {"quick": 2500, "thorough": 50000}),
     ]
